@@ -27,6 +27,7 @@ def run(prog: Program, res: Result, tier: str) -> None:
     iso.check_mirror(prog, res)
     iso.check_feasibility(prog, res)
     iso.check_both_sides(prog, res)
+    iso.check_state_shape(prog, res)
     iso.check_revert(prog, res)
     iso.check_stereo_index(prog, res)
     iso.check_prechecks(prog, res)
